@@ -109,15 +109,23 @@ func (p *Program) FuncByName(n string) *Func {
 	return nil
 }
 
+// ab: a name right after '<' (a leading '-' would otherwise be scanned as "<-").
+func ab(n string) string {
+	if len(n) > 0 && n[0] == '-' {
+		return " " + n
+	}
+	return n
+}
+
 func (t *Term) write(b *strings.Builder, ind string) {
 	switch t.Op {
 	case "send":
-		fmt.Fprintf(b, "send %s<%s, %s>", t.X, t.Y, t.Z)
+		fmt.Fprintf(b, "send %s<%s, %s>", t.X, ab(t.Y), t.Z)
 	case "recv":
-		fmt.Fprintf(b, "<%s, %s> <- recv %s;\n%s", t.Y, t.Z, t.X, ind)
+		fmt.Fprintf(b, "<%s, %s> <- recv %s;\n%s", ab(t.Y), t.Z, t.X, ind)
 		t.Cont.write(b, ind)
 	case "sel":
-		fmt.Fprintf(b, "%s.%s<%s>", t.X, t.Lbl, t.Y)
+		fmt.Fprintf(b, "%s.%s<%s>", t.X, t.Lbl, ab(t.Y))
 	case "case":
 		fmt.Fprintf(b, "case %s (\n", t.X)
 		for i, br := range t.Brs {
@@ -125,7 +133,7 @@ func (t *Term) write(b *strings.Builder, ind string) {
 			if i > 0 {
 				sep = "| "
 			}
-			fmt.Fprintf(b, "%s  %s%s<%s> => ", ind, sep, br.Lbl, br.Var)
+			fmt.Fprintf(b, "%s  %s%s<%s> => ", ind, sep, br.Lbl, ab(br.Var))
 			br.Body.write(b, ind+"      ")
 			b.WriteString("\n")
 		}
@@ -156,13 +164,13 @@ func (t *Term) write(b *strings.Builder, ind string) {
 	case "fwd":
 		fmt.Fprintf(b, "fwd %s %s", t.X, t.Y)
 	case "split":
-		fmt.Fprintf(b, "<%s, %s> <- split %s;\n%s", t.Y, t.Z, t.X, ind)
+		fmt.Fprintf(b, "<%s, %s> <- split %s;\n%s", ab(t.Y), t.Z, t.X, ind)
 		t.Cont.write(b, ind)
 	case "wait":
 		fmt.Fprintf(b, "wait %s;\n%s", t.X, ind)
 		t.Cont.write(b, ind)
 	case "cast":
-		fmt.Fprintf(b, "cast %s<%s>", t.X, t.Y)
+		fmt.Fprintf(b, "cast %s<%s>", t.X, ab(t.Y))
 	case "shift":
 		fmt.Fprintf(b, "%s <- shift %s;\n%s", t.Y, t.X, ind)
 		t.Cont.write(b, ind)
